@@ -5,6 +5,7 @@ import CspuzModel.Proofs.C03
 namespace Cspuz.C03
 open Cspuz Cspuz.Spec Cspuz.Sugar Cspuz.SugarSyntax
 open Cspuz.Proofs.C03Text Cspuz.Proofs.C03Reply Cspuz.Proofs.C03Backend Cspuz.Proofs.C03WT
+open Cspuz.Proofs.C03Plain Cspuz.Proofs.C03Java
 
 /-- The text handed to the external solver — `cspDescription` is the model of `_convert_variable`,
 `_convert_expr`, `"\n".join(...)` and of the `#` line of `solve_irrefutably` — read back by `parseCSP`, the
@@ -126,6 +127,41 @@ def statement_native_deduction : Prop :=
 
 theorem C03_native_deduction : statement_native_deduction := Cspuz.Proofs.C03.native_deduction
 
+/-- C02 through plain `sugar` (the only class without native deduction): `Solver.solve("sugar")` IS cspuz's own
+refute-and-re-solve loop run over `SugarLikeBackend.solve` (`solveRefine` of Model/Solver.lean, the loop C02 is
+about), and for a correct external solver it never raises, returns True exactly when the program is satisfiable
+and then every answer key's `sol` is `v` iff all models give `v`, `None` iff two models disagree.  `goodC` = C01's
+well-typed trees without one-operand `SUB`, mentioning only declared variables at their declared type (the loop
+only ever submits such programs: its refuting clauses are `xor`/`!=` of a declared variable and a literal).
+Uses `Cspuz.C02.C02_exact`. -/
+def statement_plain_sugar : Prop :=
+  ∀ (S : Call), SolverCorrect S → ∀ (st : SolverState),
+    (∀ c ∈ st.cs, goodC st.decls c = true) → st.isKey.length = st.decls.length →
+    sugarSolve .sugar S st = solveRefine (sugarBackend S) st ∧
+    ((sugarSolve .sugar S st).2 = .verdict true ∨ (sugarSolve .sugar S st).2 = .verdict false) ∧
+    ((sugarSolve .sugar S st).2 = .verdict true ↔ Satisfiable st.decls st.cs) ∧
+    ((sugarSolve .sugar S st).2 = .verdict true →
+      ∀ i, i < st.decls.length → st.isKey.getD i false = true →
+        (∀ v, (sugarSolve .sugar S st).1.sol.getD i none = some v ↔ CommonValue st.decls st.cs i v) ∧
+        ((sugarSolve .sugar S st).1.sol.getD i none = none ↔ Undetermined st.decls st.cs i))
+
+theorem C03_plain_sugar : statement_plain_sugar := fun _ hS st h1 h2 => plain_sugar hS st h1 h2
+
+/-- The reference wrapper itself.  `CspuzSugarInterface.run()` (Model/SugarJava.lean: `loadProblem`, both modes, the
+deduction loop `problem.add(OR(refuting)); if (!solveCSP()) break; …` with ints before bools) run on ANY correct
+`solveCSP` oracle honours the protocol on every description of the fragment: in particular in deduction mode it
+stops by itself and prints `sat` followed by exactly the exact facts of the named keys (undecided keys omitted),
+or `unsat`. -/
+def statement_java_loop : Prop :=
+  ∀ (O : SugarJava.Oracle), OracleCorrect O → SolverCorrect (SugarJava.run O)
+
+theorem C03_java_loop : statement_java_loop := fun _ hO => run_correct hO
+
+/-- The hypothesis `SolverCorrect` is satisfiable (an ideal solver exists), so the theorems above are not vacuous. -/
+def statement_solver_exists : Prop := ∃ S : Call, SolverCorrect S
+
+theorem C03_solver_exists : statement_solver_exists := Cspuz.Proofs.C03Exists.solver_exists
+
 /-! ### Non-vacuity: concrete instances -/
 
 /-- a sparse, permuted variable list; all operator families; a native graph constraint with `*`. -/
@@ -151,6 +187,9 @@ example : sugarWT (.node .and [.bvar 0, .node .eq [.node .add [.ivar 1], .litI 2
 example : sugarWT (.node .graphAVC [.litI 2, .litI 1, .bvar 0, .litB true, .litI 0, .litI 1]) = true := by decide
 /-- the one-operand SUB is excluded (and is exactly what `printable` rejects in a well-typed tree). -/
 example : wtI (.node .sub [.ivar 0]) = true ∧ printable (.node .sub [.ivar 0]) = false := by decide
+
+/-- C02's example program is in the class of the plain-`sugar` theorem. -/
+example : goodC [.bool, .int 0 1] (.node .or [.bvar 0, .node .gt [.ivar 1, .litI 5]]) = true := by decide
 
 example : parseSat [⟨7, .bool⟩, ⟨2, .int (-30) 5⟩] "s SATISFIABLE\na i2\t-17\na b7\tfalse\na\n"
     = .ok (true, [some (.b false), some (.i (-17))]) := by decide
